@@ -97,10 +97,14 @@ theorem recv_inv (idsOf : Nat → List τ) {st st' : LState τ} {k : Nat} (hinv 
         · exact Or.inr (hmonoS hn)
       · simp only [Flags.shuttingDown, hflj n hnk] at hn ⊢
         exact hn
-    · intro m hm
+    · intro m hm hge
+      have hmk : m ≠ k := by
+        have : k < st.ctl.nextId := by rw [← hinv.1.len]; exact hk
+        omega
+      rw [hflj m hmk]
       rcases keys_set_mem _ _ _ _ hm with hm | hm
-      · exact hinv.1.flagsLt m hm
-      · rw [hm, ← hinv.1.len]; exact hk
+      · exact hinv.1.flagsLt m hm hge
+      · exact absurd hm hmk
   · intro j wj hj
     by_cases hjk : j ≠ k
     · simp only at hj
